@@ -20,7 +20,7 @@ RULE = (
     "(13 (T,p) over 2 SIDs x 2 L0 values); protect for SD1/SD2 with/without naming the root key} x 4 DC policies {authorised+exact position, the same with the L2 key omitted at L2'=31, authorised+later covering "
     "envelope, not authorised (public key only, depth 3)}; the live KeyCache is shared along a history (prefix sharing by deep copy, cross-checked against replay from scratch). "
     "mixed part: histories of length <=3 over 17 operations {load; 4 operations on one triple x {sync, async} x {caller is a group member, caller is not (public key only)}} on one shared cache. "
-    "thread part: 6 pairs of sync calls from two OS threads on one shared cache under a controlled scheduler (scheduling point = function entry (quick) / every source line (thorough) of dpapi_ng), every schedule with <= 1 preemption (thorough: one pair with <= 2), then every probe. "
+    "thread part: 3 (quick) / 6 (thorough) pairs of sync calls from two OS threads on one shared cache under a controlled scheduler (scheduling point = function entry (quick) / every source line (thorough) of dpapi_ng), every schedule with <= 1 preemption (thorough: one pair with <= 2), then every probe. "
     "cancellation part: the same two-call schedules where, in addition, the application may cancel a call that waits for the DC (asyncio.Task.cancel; bound 2): the cancelled call ends cancelled, every other call and every later probe is transparent. "
     "concurrent part: 2 (quick) / 3 (thorough) async calls on the same triple sharing one cache on the virtual loop; choice point = which task starts / which pending connection "
     "gets its next reply; deviation bound 2 / 3 from run-to-completion order; every execution is continued by each sequential probe operation. Oracle: (1) every call returns within the "
@@ -393,7 +393,7 @@ def concurrent_shard(w, acc, policy: str, ops, bound: int, preload: bool, cancel
     acc.sample({"concurrent_ops": [list(o) for o in ops], "policy": policy, "schedules_explored": stats["executions"], "deviation_bound": bound})
 
 
-THREAD_PARTS = 4
+THREAD_PARTS = 8
 THREAD_PAIRS = [
     [["unprot", "T1", [3, 5]], ["unprot", "T1", [10, 12]]],
     [["unprot", "T1", [10, 12]], ["unprot", "T1", [3, 5]]],
@@ -462,7 +462,7 @@ def thread_shard(w, acc, policy: str, ops, bound: int, coarse: bool, part: int, 
 
 def shards(tier: str, seed: int):
     out = []
-    for pr in THREAD_PAIRS:
+    for pr in (THREAD_PAIRS if tier == "thorough" else [THREAD_PAIRS[0], THREAD_PAIRS[2], THREAD_PAIRS[3]]):
         for part in range(THREAD_PARTS):
             out.append(["threads", "exact", pr, 1, tier == "quick", part, THREAD_PARTS])
     if tier == "thorough":
